@@ -270,14 +270,16 @@ prop("C20", "exploration",
 prop("C16", "exploration",
      "cases = scripted scenarios (Byzantium..Cancun, 1-3 contracts, 2-8 journal blocks each that register several members "
      "under the same parent key with value / reference index keys and journal them, CALL / DELEGATECALL between the "
-     "contracts, value transfers, 1-2 invocations). Each case is executed 8 times (thorough: 32) on fresh EVMs over equal "
+     "contracts, value transfers, 1-2 invocations; reference typed keys over short and long stored strings as well). The run "
+     "is split over 8 processes (package-level state leaking between executions shows only until it has poisoned the "
+     "process). Each case is executed 8 times (thorough: 32) on fresh EVMs over equal "
      "pre-states, alternately with and without a debug tracer, and for half of the cases an unrelated scenario runs on its "
      "own EVM between the repetitions. Oracle: a canonical rendering of return data, gas, error, state root, logs, the "
      "whole call tree and EVERY query result of the state-change tracer with lists IN THE ORDER RETURNED (Children, "
      "ChildrenIndices, IndicesOfChanges, call children, change lists, lookups by slot) must be byte-identical across the "
      "repetitions; the tracer of the unrelated EVM must know nothing about accounts only the other one touched. "
      "Non-trivial = some returned list has >= 2 elements.",
-     [{"test": "TestC16", "quick": {"checks": 1500, "shards": 2, "timeout": 600},
+     [{"test": "TestC16", "quick": {"checks": 350, "shards": 8, "timeout": 600},
        "thorough": {"checks": 8000, "shards": 16, "timeout": 3000}}])
 
 prop("C17", "exploration",
